@@ -275,7 +275,16 @@ def _b2_c04(seed):
             cx = sum(p[0] for p in outlines[0]) / len(outlines[0])
             cy = sum(p[1] for p in outlines[0]) / len(outlines[0])
             r = rnd.uniform(2, 6)
-            nogos.append([(round(cx - r, 3), round(cy - r, 3)), (round(cx + r, 3), round(cy - r, 3)), (round(cx + r, 3), round(cy + r, 3)), (round(cx - r, 3), round(cy + r, 3))])
+            if rnd.random() < 0.4:
+                # a zone that overhangs the bounding rectangle of the property on the +x / +y side but still overlaps the property
+                bx = max(p[0] for o in outlines for p in o) + rnd.uniform(3, 15)
+                by = max(p[1] for o in outlines for p in o) + rnd.uniform(3, 15)
+                if rnd.random() < 0.5:
+                    nogos.append([(round(cx, 3), round(cy - r, 3)), (round(bx, 3), round(cy - r, 3)), (round(bx, 3), round(cy + r, 3)), (round(cx, 3), round(cy + r, 3))])
+                else:
+                    nogos.append([(round(cx - r, 3), round(cy, 3)), (round(cx + r, 3), round(cy, 3)), (round(cx + r, 3), round(by, 3)), (round(cx - r, 3), round(by, 3))])
+            else:
+                nogos.append([(round(cx - r, 3), round(cy - r, 3)), (round(cx + r, 3), round(cy - r, 3)), (round(cx + r, 3), round(cy + r, 3)), (round(cx - r, 3), round(cy + r, 3))])
         b_min, b_max_x, b_max_y = 5.0, rnd.choice([10.0, 12.5, 15.0]), rnd.choice([10.0, 12.5, 15.0])
         prop = [[list(p) for p in o] for o in outlines]
         ng = [[list(p) for p in o] for o in nogos]
